@@ -14,6 +14,7 @@ structure MCall where
   t : Nat
   res : Option String := none     -- none = no `ret` yet
   hooked : Bool := false
+  freeAt : Nat := 0               -- instant from which the call runs freely: its start, or the instant it was let go at the hook
   delivered : Option Nat := none  -- index of the batch it went into
 
 structure MBatch where
@@ -70,12 +71,17 @@ def monitorHist (sc : HScn) (entries : List String) : List (String × String) :=
     let n3 := (a3.toNat?).getD 0
     if kind == "call" then
       let cost := match m.costs.lookup n3 with | some v => v | none => (sc.ops[n3]?.map (·.cost)).getD 0
-      m := { m with calls := m.calls.push { k := n2, obj := n3, cost := cost, t := t } }
+      m := { m with calls := m.calls.push { k := n2, obj := n3, cost := cost, t := t, freeAt := t } }
     else if kind == "hook" then
       m := { m with calls := m.calls.map fun c => if c.k == n2 then { c with hooked := true } else c }
     else if kind == "unhook" then
-      m := { m with calls := m.calls.map fun c => if c.k == n2 then { c with hooked := false } else c }
+      m := { m with calls := m.calls.map fun c => if c.k == n2 then { c with hooked := false, freeAt := t } else c }
     else if kind == "ret" then
+      -- C15: with ErrorOnFullBuffer an Enqueue never waits: it returns at the instant it started (or was let go at the hook)
+      let waited : Bool := match m.calls.find? (·.k == n2) with
+        | some cl => sc.c.errorOnFull && decide (t > cl.freeAt) && a3 != "panic"
+        | none => false
+      if waited == true then m := m.add "C15" "error-mode-enqueue-waited"
       m := { m with calls := m.calls.map fun c => if c.k == n2 then { c with res := some a3 } else c }
       if a3 == "TooManyAttempts" then
         match m.calls.find? (·.k == n2) with
@@ -200,6 +206,9 @@ def monitorHist (sc : HScn) (entries : List String) : List (String × String) :=
         m := m.add "C01" "watcher-finds-other-operations-than-were-raised-for-it" |>.add "C05" "batch-changed-after-it-was-handed-to-the-watcher"
       m := { m with batches := m.batches.map fun b => if b.harnessB == some n2 then { b with cbRet := some t } else b }
     else if kind == "end" then
+      -- C15: with ErrorOnFullBuffer no Enqueue is left waiting at the end of the history
+      if sc.c.errorOnFull && m.calls.any (fun c => c.res.isNone && !c.hooked && c.freeAt < t) then
+        m := m.add "C15" "error-mode-enqueue-still-waiting"
       -- starvation: with no rate limiter every cycle empties the buffer as far as batch slots allow. An operation
       -- accepted at least three flush intervals before the end of a history whose last three intervals saw a
       -- running, unpaused Batcher with every batch finished must have been delivered.
